@@ -9,7 +9,7 @@
 #define VERIF_MAXT 3          /* main + workers */
 #endif
 #ifndef VERIF_K
-#define VERIF_K 40            /* scheduler steps */
+#define VERIF_K 8             /* activations = context switches + 1 */
 #endif
 #ifndef VERIF_SPURIOUS
 #define VERIF_SPURIOUS 0      /* spurious wake-ups allowed */
@@ -21,15 +21,47 @@ static uint32_t verif_nthr = 1, verif_cur = 0, verif_spurious_left = VERIF_SPURI
 uint32_t verif_sched_log;     /* scheduler choices, read back from the counterexample trace */
 uint32_t verif_e2_steps;
 
+/* A yield point either hands control back to the scheduler (a context switch: forced when the thread cannot
+ * proceed, otherwise the solver's choice) or lets the thread run on in the same activation.  The scheduler loop
+ * bounds the number of activations (VERIF_K = context-switch bound + 1). */
+static int verif_enabled(uint32_t t);
+#ifdef __CPROVER__
+uint32_t __VERIFIER_nondet_u32(void);
+static uint32_t verif_pick(void) { return __VERIFIER_nondet_u32(); }
+#else
+uint64_t verif_prng_next(int bits);
+static uint32_t verif_pick(void) { return (uint32_t)verif_prng_next(8); }
+#endif
+static int verif_switch_here(void) {
+  if (!verif_enabled(verif_cur)) return 1;                 /* blocked: forced switch */
+  uint32_t c = verif_pick() & 1;
+  verif_sched_log = 200 + c;                               /* 200 = run on, 201 = pre-empted here */
+  return (int)c;
+}
 static void verif_thread_init(uint32_t t, uint8_t *state);     /* generated: sets up the entry frame of thread t */
 static int verif_step_thread(uint32_t t);                       /* generated: runs thread t to its next yield */
 
-/* ---- mutex: the first word of pthread_mutex_t holds owner+1 */
-static inline int32_t *verif_mword(uint8_t *m) { return (int32_t *)m; }
+/* ---- mutex: owner+1 is kept in a side table keyed by the mutex address (writing into the pthread_mutex_t itself
+ * would be a byte-level update of whatever object embeds it) */
+#ifndef VERIF_MAXM
+#define VERIF_MAXM 8
+#endif
+static uint8_t *verif_mtx_addr[VERIF_MAXM];
+static int32_t verif_mtx_owner[VERIF_MAXM];
+static uint32_t verif_nmtx;
+static inline int32_t *verif_mword(uint8_t *m) {
+  for (uint32_t i = 0; i < VERIF_MAXM; i++) if (i < verif_nmtx && verif_mtx_addr[i] == m) return &verif_mtx_owner[i];
+  __CPROVER_assert(verif_nmtx < VERIF_MAXM, "VERIF model: more mutexes than modelled"); __CPROVER_assume(verif_nmtx < VERIF_MAXM);
+  verif_mtx_addr[verif_nmtx] = m; verif_mtx_owner[verif_nmtx] = 0;
+  return &verif_mtx_owner[verif_nmtx++];
+}
 struct FR_pthread_mutex_lock { uint32_t pc; uint32_t ret; uint8_t *a0; };
 static int pthread_mutex_lock_step(struct FR_pthread_mutex_lock *fr) {
-  if (fr->pc == 0) { verif_thr[verif_cur].kind = VK_LOCK; verif_thr[verif_cur].obj = fr->a0; fr->pc = 1; return 0; }
-  __CPROVER_assert(*verif_mword(fr->a0) != (int32_t)(verif_cur + 1), "VERIF concurrency: thread re-locks a mutex it already holds");
+  if (fr->pc == 0) {
+    __CPROVER_assert(*verif_mword(fr->a0) != (int32_t)(verif_cur + 1), "VERIF concurrency: thread re-locks a mutex it already holds");
+    verif_thr[verif_cur].kind = VK_LOCK; verif_thr[verif_cur].obj = fr->a0;
+    if (verif_switch_here()) { fr->pc = 1; return 0; }
+  }
   __CPROVER_assume(*verif_mword(fr->a0) == 0);          /* the scheduler only resumes an enabled thread */
   *verif_mword(fr->a0) = (int32_t)(verif_cur + 1);
   verif_thr[verif_cur].kind = VK_RUN; fr->ret = 0; return 1;
@@ -42,8 +74,8 @@ uint32_t pthread_mutex_unlock(uint8_t *m) {
 struct FR__ZNSt18condition_variable4waitERSt11unique_lockISt5mutexE { uint32_t pc; uint8_t *a0; uint8_t *a1; };
 static int _ZNSt18condition_variable4waitERSt11unique_lockISt5mutexE_step(struct FR__ZNSt18condition_variable4waitERSt11unique_lockISt5mutexE *fr) {
   uint8_t *m = *(uint8_t **)fr->a1;                      /* unique_lock::_M_device */
-  if (fr->pc == 0) { verif_thr[verif_cur].kind = VK_RUN; fr->pc = 1; return 0; }       /* yield before blocking: the lost wake-up window */
-  if (fr->pc == 1) {
+  if (fr->pc == 0) { verif_thr[verif_cur].kind = VK_RUN; if (verif_switch_here()) { fr->pc = 1; return 0; } }   /* possible pre-emption before blocking: the lost wake-up window */
+  if (fr->pc <= 1) {
     __CPROVER_assert(*verif_mword(m) == (int32_t)(verif_cur + 1), "VERIF concurrency: condition_variable::wait without holding the lock");
     *verif_mword(m) = 0;
     verif_thr[verif_cur].waitcv = fr->a0;
@@ -78,7 +110,8 @@ static int _ZNSt6thread4joinEv_step(struct FR__ZNSt6thread4joinEv *fr) {
   if (fr->pc == 0) {
     __CPROVER_assert(id1 >= 1 && id1 <= VERIF_MAXT - 1 + 1, "VERIF concurrency: join of a thread that is not joinable");
     __CPROVER_assume(id1 >= 1 && id1 <= VERIF_MAXT);
-    verif_thr[verif_cur].kind = VK_JOIN; verif_thr[verif_cur].join_id = (uint32_t)(id1 - 1); fr->pc = 1; return 0;
+    verif_thr[verif_cur].kind = VK_JOIN; verif_thr[verif_cur].join_id = (uint32_t)(id1 - 1);
+    if (verif_switch_here()) { fr->pc = 1; return 0; }
   }
   __CPROVER_assume(verif_thr[verif_thr[verif_cur].join_id].done);
   *(uint64_t *)fr->a0 = 0;
@@ -96,13 +129,6 @@ static int verif_enabled(uint32_t t) {
     default: return 1;
   }
 }
-#ifdef __CPROVER__
-uint32_t __VERIFIER_nondet_u32(void);
-static uint32_t verif_pick(void) { return __VERIFIER_nondet_u32(); }
-#else
-uint64_t verif_prng_next(int bits);
-static uint32_t verif_pick(void) { return (uint32_t)verif_prng_next(8) % VERIF_MAXT; }
-#endif
 void verif_witness(void);
 void verif_e2_run(void) {
   verif_thr[0].active = 1;
@@ -116,22 +142,28 @@ void verif_e2_run(void) {
       verif_thr[w].waitcv = 0; verif_spurious_left--; verif_sched_log = 100 + w; continue;
     }
 #endif
+#ifndef __CPROVER__
+    if (!en) { printf("DEADLOCK at step %u\n", step); exit(7); }
+#endif
     __CPROVER_assert(en, "VERIF concurrency: deadlock - threads remain but none can run (lost wake-up / wait never returns)");
     __CPROVER_assume(en);
     uint32_t t = verif_pick();
 #ifdef __CPROVER__
     __CPROVER_assume(t < VERIF_MAXT && verif_enabled(t));
 #else
-    while (!(t < VERIF_MAXT && verif_enabled(t))) t = (t + 1) % VERIF_MAXT;
+    t %= VERIF_MAXT; while (!verif_enabled(t)) t = (t + 1) % VERIF_MAXT;
 #endif
     verif_sched_log = t;
+#ifndef __CPROVER__
+    if (getenv("VERIF_E2_DEBUG")) printf("step %u: run thread %u (kinds:", step, t), printf(" %d/%d", verif_thr[0].kind, verif_thr[1].kind), printf(")\n");
+#endif
     verif_cur = t;  /* refined to a constant by the case split in verif_step_thread */
     verif_e2_steps = step + 1;
     if (verif_step_thread(t)) verif_thr[t].done = 1;
   }
   int all = 1;
   for (uint32_t t = 0; t < VERIF_MAXT; t++) if (verif_thr[t].active && !verif_thr[t].done) all = 0;
-  __CPROVER_assert(all, "VERIF model: scheduler step bound K insufficient for completion");
+  /* schedules that need more than VERIF_K activations are outside the bound (context-bounded analysis) */
   __CPROVER_assume(all);
 }
 #endif
